@@ -151,6 +151,56 @@ func apply(s0 state, a []string) (string, state) {
 			s.Str[a[i]] = a[i+1]
 		}
 		return "+OK\r\n", s
+	case "MSETNX":
+		for i := 1; i+1 < len(a); i += 2 {
+			if s.typeOf(a[i]) != "" {
+				return integer(0), s
+			}
+		}
+		for i := 1; i+1 < len(a); i += 2 {
+			s.Str[a[i]] = a[i+1]
+		}
+		return integer(1), s
+	case "SETNX":
+		if s.typeOf(k) != "" {
+			return integer(0), s
+		}
+		s.Str[k] = a[2]
+		return integer(1), s
+	case "GETSET":
+		if t := s.typeOf(k); t != "" && t != "str" {
+			return wrongType, s
+		}
+		old, ok := s.Str[k]
+		s.Str[k] = a[2]
+		if !ok {
+			return nilReply, s
+		}
+		return bulk(old), s
+	case "COPY": // COPY src dst REPLACE
+		dst := a[2]
+		if dst == k {
+			return "-ERR", s
+		}
+		t := s.typeOf(k)
+		if t == "" {
+			return integer(0), s
+		}
+		str, lst, set := s.Str[k], append([]string{}, s.List[k]...), s.Set[k]
+		s.del(dst)
+		switch t {
+		case "str":
+			s.Str[dst] = str
+		case "list":
+			s.List[dst] = lst
+		case "set":
+			m := map[string]bool{}
+			for x := range set {
+				m[x] = true
+			}
+			s.Set[dst] = m
+		}
+		return integer(1), s
 	case "MGET":
 		out := fmt.Sprintf("*%d\r\n", len(a)-1)
 		for _, kk := range a[1:] {
@@ -161,7 +211,7 @@ func apply(s0 state, a []string) (string, state) {
 			}
 		}
 		return out, s
-	case "DEL":
+	case "DEL", "UNLINK":
 		n := 0
 		for _, kk := range a[1:] {
 			if s.typeOf(kk) != "" {
@@ -365,7 +415,20 @@ func genOp(r *rand.Rand) []string {
 	anyKey := []string{"a", "b", "l", "m", "s", "t"}
 	p := func(xs []string) string { return xs[r.Intn(len(xs))] }
 	v := func() string { return strconv.Itoa(r.Intn(5)) }
-	switch r.Intn(22) {
+	switch r.Intn(28) {
+	case 22:
+		x := v()
+		return []string{"MSETNX", "a", x, "b", x}
+	case 23:
+		return []string{p([]string{"DEL", "UNLINK"}), "a", "b"}
+	case 24:
+		return []string{"SETNX", p(strs), v()}
+	case 25:
+		return []string{"GETSET", p(strs), v()}
+	case 26:
+		return []string{"COPY", p(anyKey), p(anyKey), "REPLACE"}
+	case 27:
+		return []string{"EXISTS", "a", "b"}
 	case 0:
 		return []string{"GET", p(strs)}
 	case 1:
@@ -559,6 +622,210 @@ func main() {
 		cl.Close()
 		stats["stress_rounds"]++
 		stats["stress_operations"] += total * 9
+	}
+	// ---- part C: multi-key atomicity. A group of keys is only ever changed as a whole (MSET of one
+	// value, MSETNX, DEL, UNLINK, RENAME of a pair), so every linearizable execution shows it to a
+	// reader either completely present with one value or completely absent; barrier-synchronised
+	// rounds of competing MSETNX on overlapping fresh keys have exactly the winners a sequential order allows.
+	for round := 0; round < *stress && failures == 0; round++ {
+		vs := redisemu.VerifNewStore("")
+		do := func(cl *redisemu.VerifClient, a ...string) string { r, _ := cl.Dispatch(toArgv(a)); return string(r) }
+		group := []string{"g1", "g2", "g3", "g4"}
+		stop := make(chan struct{})
+		var wg sync.WaitGroup
+		var badMu sync.Mutex
+		var bad []string
+		note := func(sx string) {
+			badMu.Lock()
+			if len(bad) < 5 {
+				bad = append(bad, sx)
+			}
+			badMu.Unlock()
+		}
+		for w := 0; w < 3; w++ {
+			wg.Add(1)
+			go func(w int) {
+				defer wg.Done()
+				cl := vs.NewClient()
+				defer cl.Close()
+				r := rand.New(rand.NewSource(*seed*7919 + int64(round*13+w)))
+				for i := 0; ; i++ {
+					select {
+					case <-stop:
+						return
+					default:
+					}
+					v := strconv.Itoa(w*100000 + i)
+					switch r.Intn(5) {
+					case 0:
+						do(cl, "MSET", "g1", v, "g2", v, "g3", v, "g4", v)
+					case 1:
+						do(cl, "MSETNX", "g1", v, "g2", v, "g3", v, "g4", v)
+					case 2:
+						do(cl, append([]string{"DEL"}, group...)...)
+					case 3:
+						do(cl, append([]string{"UNLINK"}, group...)...)
+					case 4:
+						do(cl, "MSET", "g4", v, "g3", v, "g2", v, "g1", v)
+					}
+				}
+			}(w)
+		}
+		observations := 0
+		var obsMu sync.Mutex
+		for rd := 0; rd < 4; rd++ {
+			wg.Add(1)
+			go func(rd int) {
+				defer wg.Done()
+				cl := vs.NewClient()
+				defer cl.Close()
+				n := 0
+				for i := 0; i < 6000; i++ {
+					if i%2 == 0 {
+						if r := do(cl, append([]string{"EXISTS"}, group...)...); r != ":0\r\n" && r != ":4\r\n" {
+							note("EXISTS g1 g2 g3 g4 -> " + strconv.Quote(r))
+						}
+					} else {
+						r := do(cl, append([]string{"MGET"}, group...)...)
+						parts := strings.Split(r, "\r\n")
+						// *4 then either $-1 x4 or ($n, v) x4
+						vals := []string{}
+						for j := 1; j < len(parts); j++ {
+							if parts[j] == "$-1" {
+								vals = append(vals, "<nil>")
+							} else if strings.HasPrefix(parts[j], "$") && j+1 < len(parts) {
+								vals = append(vals, parts[j+1])
+								j++
+							}
+						}
+						for _, x := range vals {
+							if len(vals) != 4 || x != vals[0] {
+								note("MGET g1 g2 g3 g4 -> " + strconv.Quote(r))
+								break
+							}
+						}
+					}
+					n++
+				}
+				obsMu.Lock()
+				observations += n
+				obsMu.Unlock()
+			}(rd)
+		}
+		// readers finish on their own; then stop the writers
+		go func() {
+			for {
+				obsMu.Lock()
+				done := observations >= 4*6000
+				obsMu.Unlock()
+				if done {
+					close(stop)
+					return
+				}
+				time.Sleep(time.Millisecond)
+			}
+		}()
+		wg.Wait()
+		stats["group_observations"] += observations
+		if len(bad) > 0 {
+			fail("group", round, bad, "a reader saw a group of keys that is only ever written or removed as a whole in a partial state: "+bad[0])
+			break
+		}
+
+		// competing MSETNX
+		const workers = 4
+		rounds := 4000
+		replies := make([][]string, workers)
+		var bwg sync.WaitGroup
+		gate := make([]chan struct{}, rounds)
+		for i := range gate {
+			gate[i] = make(chan struct{})
+		}
+		doneCh := make(chan int, workers)
+		keyOf := func(i, j int) string { return fmt.Sprintf("n%d-%d", i%7, j) } // 7 reused key rings
+		cls := make([]*redisemu.VerifClient, workers)
+		for w := 0; w < workers; w++ {
+			cls[w] = vs.NewClient()
+			replies[w] = make([]string, rounds)
+		}
+		ctl := vs.NewClient()
+		for w := 0; w < workers; w++ {
+			bwg.Add(1)
+			go func(w int) {
+				defer bwg.Done()
+				for i := 0; i < rounds; i++ {
+					<-gate[i]
+					// worker w claims ring positions w and w+1: neighbours overlap in one key
+					replies[w][i] = do(cls[w], "MSETNX", keyOf(i, w), strconv.Itoa(w), keyOf(i, (w+1)%workers), strconv.Itoa(w))
+					doneCh <- w
+				}
+			}(w)
+		}
+		for i := 0; i < rounds && failures == 0; i++ {
+			// fresh ring
+			del := []string{"DEL"}
+			for j := 0; j < workers; j++ {
+				del = append(del, keyOf(i, j))
+			}
+			do(ctl, del...)
+			close(gate[i])
+			for w := 0; w < workers; w++ {
+				<-doneCh
+			}
+			// winners must be pairwise non-adjacent, and every key holds the value of a winner that claimed it
+			won := make([]bool, workers)
+			for w := 0; w < workers; w++ {
+				won[w] = replies[w][i] == ":1\r\n"
+			}
+			problem := ""
+			for w := 0; w < workers; w++ {
+				if won[w] && won[(w+1)%workers] {
+					problem = fmt.Sprintf("MSETNX of workers %d and %d both replied 1 although they share key %s", w, (w+1)%workers, keyOf(i, (w+1)%workers))
+				}
+			}
+			for j := 0; j < workers && problem == ""; j++ {
+				got := do(ctl, "GET", keyOf(i, j))
+				// key j is claimed by worker j (first key) and worker j-1 (second key)
+				a, b := j, (j+workers-1)%workers
+				want := nilReply
+				if won[a] {
+					want = bulk(strconv.Itoa(a))
+				} else if won[b] {
+					want = bulk(strconv.Itoa(b))
+				}
+				if got != want {
+					problem = fmt.Sprintf("after the round key %s holds %q, the replies %v imply %q", keyOf(i, j), got, won, want)
+				}
+			}
+			if problem == "" {
+				any := false
+				for _, x := range won {
+					any = any || x
+				}
+				if !any {
+					problem = "no MSETNX on a completely fresh ring succeeded"
+				}
+			}
+			stats["msetnx_rounds"]++
+			if problem != "" {
+				fail("msetnx", round, []string{fmt.Sprintf("%d connections, each MSETNX ring[w] w ring[w+1] w on a fresh ring, released together", workers)}, problem)
+			}
+		}
+		if failures > 0 {
+			// release the workers still waiting on later gates
+			for i := range gate {
+				select {
+				case <-gate[i]:
+				default:
+					close(gate[i])
+				}
+			}
+			go func() {
+				for range doneCh {
+				}
+			}()
+		}
+		bwg.Wait()
 	}
 	res := map[string]any{"stats": stats, "samples": samples, "failures": failures, "wall_s": time.Since(start).Seconds()}
 	if *out != "" {
